@@ -16,4 +16,11 @@ import "github.com/go-faster/errors"
 //@ extern func errors.Wrapf(e error, format string, a ...interface{}) (err error)
 //@   ensures nilness: (err == nil) == (e == nil)
 
+//@ extern func errors.Is(e error, target error) (r bool)
+//@   pure
+//@   ensures nilerr: e == nil && target != nil ==> !r
+//@   ensures self:   e != nil && e == target ==> r
+//@ extern func errors.Join(errs ...error) (err error)
+//@   pure
+
 var _ = errors.New
